@@ -61,6 +61,8 @@ def cases(tier):
     for ns in (0, 1):
         for n in lengths + (list(range(2, 1025)) if tier == 'quick' else list(range(2, 8193))):
             out.append(('random', '%d,0,%d,255' % (n, ns), '%s.random_get(%d bytes), getentropy = model (EIO above 256 bytes)' % (NSNAME[ns], n), ('len>256' if n > 256 else 'len<=256') + ',model'))
+        for n in lengths[:-1] + [2, 300, 768]:
+            out.append(('random', '%d,0,%d,end' % (n, ns), '%s.random_get(%d bytes) into a buffer that ends exactly at the end of guest memory, getentropy = model' % (NSNAME[ns], n), ('len>256' if n > 256 else 'len<=256') + ',model,at-end'))
         for n in lengths:
             out.append(('random', '%d,1,%d,0' % (n, ns), '%s.random_get(%d bytes), real getentropy' % (NSNAME[ns], n), ('len>256' if n > 256 else 'len<=256') + ',real'))
         for code in (0, 1, 2, 125, 255):
